@@ -12,7 +12,7 @@
    error sets; it is not proved for all documents. *)
 From Coq Require Import ZArith List String Bool.
 From TV Require Import Py.Prelude Model.Schema Model.ImplInput Model.ImplExec Model.Envelope
-     Model.ImplValidate Model.SpecValidate Model.RunValidate Proofs.ValidateProofs Proofs.ValidateRules Proofs.ValidateValues Proofs.ValidateSites Proofs.ValidateWalk
+     Model.ImplValidate Model.SpecValidate Model.RunValidate Proofs.ValidateProofs Proofs.ValidateRules Proofs.ValidateValues Proofs.ValidateSites Proofs.ValidateWalk Proofs.ValidateTree
      Gen.Wiring_gen Proofs.Wiring.
 Import ListNotations.
 Open Scope string_scope.
@@ -134,6 +134,26 @@ Theorem C07_any_flagged_rule_refuses V doc :
   accepted V doc = true -> quiet (walk_phase_errs V doc) /\ quiet (cycle_rule (fragments doc)).
 Proof. intros H. apply accepted_iff_clean in H. apply validate_clean_iff in H. tauto. Qed.
 
+(* COMPLETENESS over the whole document (Proofs/ValidateTree.v): a document with ANY node -- at any depth,
+   in an operation or a fragment -- violating one of the specification's node predicates (argument names /
+   uniqueness / required arguments, values of correct type, input-field uniqueness, directives defined /
+   unique / in valid locations and their argument rules, field exists, leaf selection, type conditions,
+   variable definitions), or a cyclic fragment graph, a repeated operation or fragment name, a second
+   anonymous operation, a spread of an undefined fragment, an unused fragment, is NOT accepted. *)
+Theorem C07_violating_document_refused V
+  (Hin : forall n ifs f, vfind_type V n = Some (DInput ifs) -> In f ifs -> input_ty V (in_type f))
+  (Hfields : forall scope name f d, vfind_field V scope name = Some f -> In d (fd_args f) -> input_ty V (in_type d))
+  (Hdirs : forall n dd d, vfind_directive V n = Some dd -> In d (dd_args dd) -> input_ty V (in_type d)) doc :
+  doc_walk_ok V doc = false \/ ~ acyclic (fragments doc) \/ r_operation_names doc = false \/ r_lone_anonymous doc = false \/
+  r_fragment_names doc = false \/ r_spread_targets V doc = false \/ r_fragments_used V doc = false ->
+  accepted V doc = false.
+Proof.
+  intros H. destruct (accepted V doc) eqn:E; [|reflexivity]. exfalso.
+  apply (accepted_characterised V Hin Hfields Hdirs doc) in E.
+  destruct E as (E0 & E1 & E2 & E3 & E4 & E5 & E6 & _).
+  destruct H as [H|[H|[H|[H|[H|[H|H]]]]]]; try congruence; now apply H.
+Qed.
+
 Print Assumptions C07_source_invokes_every_supported_rule.
 Print Assumptions C07_cycle_rule_exact.
 Print Assumptions C07_fragment_cycle_refuses.
@@ -154,3 +174,4 @@ Print Assumptions C07_unknown_argument_reported.
 Print Assumptions C07_missing_required_argument_reported.
 Print Assumptions C07_misplaced_directive_reported.
 Print Assumptions C07_any_flagged_rule_refuses.
+Print Assumptions C07_violating_document_refused.
